@@ -130,6 +130,14 @@ def _b_body(i, ids, types, style):
     tset = set(HEADERS) if tyl is None else set(tyl)
     exp = expected(model, grid, lambda c: c.header in tset and (idl is None or c.spine in idl))
     check(got == exp, f'dumps(spine_ids={idl}, spine_types={tyl}) = {got!r}, projection {exp!r}')
+    # one ExportOptions object used for another (one-spine) document first: the options are not the exporter's to change
+    small, _ = kp.loads('**kern\n4c\n*-\n')
+    o = ExportOptions(spine_types=list(tset), spine_ids=None if idl is None else list(idl))
+    before = (list(o.spine_types), None if o.spine_ids is None else list(o.spine_ids))
+    Exporter().export_string(small, o)
+    got2 = Exporter().export_string(doc, o)
+    check(got2 == exp, f'an ExportOptions object (spine_ids={idl}, spine_types={sorted(tset)}) first used on a one-spine document then gives {got2!r}, projection {exp!r}')
+    check((list(o.spine_types), None if o.spine_ids is None else list(o.spine_ids)) == before, f'the export changed the options object: {before} -> {(o.spine_types, o.spine_ids)}')
     return True
 
 
